@@ -1,4 +1,4 @@
-from .circuit import Circuit, transform, frequency_components
+from .circuit import Circuit, transform, frequency_components, input_network
 from ..SignalProcessing.types import TimeDomainFunction, FrequencyDomainSeries, TimeDomainSeries, StateSpaceSolver
 from ..SignalProcessing.state_space_model import StateSpaceModel, continuous_state_space_solver
 from ..Network.NodalAnalysis.bias_point_analysis import nodal_analysis_bias_point_solver
@@ -149,7 +149,7 @@ class TransientSolution(CircuitSolution):
     solver: StateSpaceSolver = field(default=continuous_state_space_solver)
 
     def __post_init__(self):
-        network = transform(self.circuit, w=[0])[0]
+        network = input_network(self.circuit)
 
         C_values = {c.id: float(c.value['C']) for c in self.circuit.components if c.type == 'capacitor'}
         L_values = {c.id: float(c.value['L']) for c in self.circuit.components if c.type == 'inductance'}
